@@ -185,17 +185,17 @@ type Package struct {
 }
 
 type G struct {
-	rng      *core.Rng
-	opt      Options
-	structs  []*StructT
-	funcs    []*funcSig
-	b        strings.Builder
-	ind      int
-	nameCtr  int
-	features map[string]int
-	curFunc  *funcSig
+	rng       *core.Rng
+	opt       Options
+	structs   []*StructT
+	funcs     []*funcSig
+	b         strings.Builder
+	ind       int
+	nameCtr   int
+	features  map[string]int
+	curFunc   *funcSig
 	loopDepth int
-	sawU8    bool // the expression being generated mentions a uint8-spelled operand
+	sawU8     bool // the expression being generated mentions a uint8-spelled operand
 }
 
 func (g *G) feat(s string) { g.features[s]++ }
